@@ -1,4 +1,5 @@
-import OnlVerif.Lemmas.TBKFinal
+import OnlVerif.Lemmas.TBKRefine
+import OnlVerif.Props.C11
 /-!
 # C11 on the kernel: the TokenBucket *as a process on the kernel model*
 
@@ -104,6 +105,94 @@ theorem tb_on_kernel_releases (size : Int → Nat) (cfg : TbCfg ℚ) (arrivals :
     (inv3_init (size := size) hg hgood hpk) (by rw [a0_mu]; omega) KReach.init
   obtain ⟨o, g1, g2, g3⟩ := inv3_final h2 h3
   exact ⟨sF, o, h1, h3, g3, g1, g2⟩
+
+/-! ### refinement: the kernel run is an admissible run of the FifoServer LTS of the shaper -/
+
+/-- **Refinement, step by step**: let `s` be reachable by kernel steps from the initial state and let the next kernel step
+end in `s'`.  Then that step is a normal one (`.ok`), and whatever values the ghost fields (`log`, `outLog`) of the LTS's
+device state hold, there is a (possibly empty) sequence of LTS actions that the shaper's LTS (`Net/Fifo.lean` with
+`TokenBucket.dev`) *accepts* from the abstraction of `s` and that ends in the abstraction of `s'` (with some ghost values):
+the step commutes with `absTB`; the packets that enter / leave in it are those the kernel step reports. -/
+theorem tb_on_kernel_step_refines (size : Int → Nat) (cfg : TbCfg ℚ) (arrivals : List ℚ) (hg : GapsOK arrivals)
+    (hgood : TokenBucket.Good cfg) (hpk : PeakOK cfg) (fuel : Nat) (s s' : KState ℚ (TbS ℚ))
+    (hreach : KReach (body size cfg) (fuel + 1) (initState cfg arrivals) s)
+    (hstep : (step (body size cfg) (fuel + 1) s).state? = some s') :
+    step (body size cfg) (fuel + 1) s = .ok s' ∧
+    ∃ new, histOf s'.trace = histOf s.trace ++ new ∧
+      ∀ lg ol, ∃ lg' ol' acts, Fifo.runActs (TokenBucket.dev cfg) (setGhost (absTB size s) lg ol) acts =
+        .ok (setGhost (absTB size s') lg' ol', putIds new, outIds new) := by
+  obtain ⟨a, _, _, _, hi, hsent, _⟩ := reach_lts (size := size) fuel hg hgood hpk hreach
+  cases hp : popMin s.agenda with
+  | none => simp [step, hp, StepResult.state?] at hstep
+  | some qr =>
+    obtain ⟨q, rest⟩ := qr
+    obtain ⟨s'', a', new, h1, h2, -, h4, h5⟩ := inv_step_lts fuel hi hsent hp
+    rw [h1] at hstep
+    simp only [StepResult.state?, Option.some.injEq] at hstep
+    subst hstep
+    refine ⟨h1, new, h4, ?_⟩
+    intro lg ol
+    obtain ⟨lg', ol', acts, h7⟩ := h5 lg ol
+    exact ⟨lg', ol', acts, by rw [absTB_eq hi, absTB_eq h2]; exact h7⟩
+
+/-- **Refinement, whole runs**: every state reachable by kernel steps is the image (under `absTB`, with some values in the
+ghost fields) of an *admissible* run of the shaper's LTS from its initial state: the LTS accepts some action sequence in
+which the packets that entered are those handed to `put` and the packets that left are those handed to `out.put`, in the
+order of the kernel trace. -/
+theorem tb_on_kernel_refines_lts (size : Int → Nat) (cfg : TbCfg ℚ) (arrivals : List ℚ) (hg : GapsOK arrivals)
+    (hgood : TokenBucket.Good cfg) (hpk : PeakOK cfg) (fuel : Nat) (s : KState ℚ (TbS ℚ))
+    (hreach : KReach (body size cfg) (fuel + 1) (initState cfg arrivals) s) :
+    ∃ acts lg ol, Fifo.runActs (TokenBucket.dev cfg) (C11.tbStart cfg 0) acts =
+      .ok (setGhost (absTB size s) lg ol, putIds (histOf s.trace), outIds (histOf s.trace)) := by
+  obtain ⟨a, acts, lg, ol, hi, -, hrun⟩ := reach_lts (size := size) fuel hg hgood hpk hreach
+  exact ⟨acts, lg, ol, by rw [absTB_eq hi]; exact hrun⟩
+
+/-- **Level bounds on the kernel** (`C11.tb_level_bounds`): in every state reachable by kernel steps the attribute cells
+satisfy `0 ≤ current_bucket ≤ bucket_size` and `update_time ≤ env.now`. -/
+theorem kernel_tb_level_bounds (size : Int → Nat) (cfg : TbCfg ℚ) (arrivals : List ℚ) (hg : GapsOK arrivals)
+    (hgood : TokenBucket.Good cfg) (hpk : PeakOK cfg) (fuel : Nat) (s : KState ℚ (TbS ℚ))
+    (hreach : KReach (body size cfg) (fuel + 1) (initState cfg arrivals) s) :
+    0 ≤ cellTime s cLevel ∧ cellTime s cLevel ≤ cfg.bucket ∧ cellTime s cUpd ≤ s.now := by
+  obtain ⟨acts, lg, ol, h⟩ := tb_on_kernel_refines_lts size cfg arrivals hg hgood hpk fuel s hreach
+  have := C11.tb_level_bounds cfg hgood 0 (le_refl _) acts _ _ _ h
+  have hd : (setGhost (absTB size s) lg ol).dev.level = cellTime s cLevel ∧
+      (setGhost (absTB size s) lg ol).dev.upd = cellTime s cUpd ∧ (setGhost (absTB size s) lg ol).now = s.now := by
+    unfold setGhost absTB
+    split
+    · split <;> exact ⟨rfl, rfl, rfl⟩
+    · exact ⟨rfl, rfl, rfl⟩
+    · exact ⟨rfl, rfl, rfl⟩
+    · exact ⟨rfl, rfl, rfl⟩
+  rw [hd.1, hd.2.1, hd.2.2] at this
+  exact this
+
+/-- **First in first out, nothing lost, on the kernel** (`C11.tb_lossless_fifo`): at every state reachable by kernel steps
+the packets handed to `put` so far are, in order, exactly those handed to `out.put` followed by those still inside (held by
+`run`, then waiting in the store). -/
+theorem kernel_tb_lossless_fifo (size : Int → Nat) (cfg : TbCfg ℚ) (arrivals : List ℚ) (hg : GapsOK arrivals)
+    (hgood : TokenBucket.Good cfg) (hpk : PeakOK cfg) (fuel : Nat) (s : KState ℚ (TbS ℚ))
+    (hreach : KReach (body size cfg) (fuel + 1) (initState cfg arrivals) s) :
+    putIds (histOf s.trace) = outIds (histOf s.trace) ++ Fifo.held (absTB size s) := by
+  obtain ⟨acts, lg, ol, h⟩ := tb_on_kernel_refines_lts size cfg arrivals hg hgood hpk fuel s hreach
+  have := ((C11.tb_lossless_fifo cfg).2 0 acts _ _ _ h).1
+  have hh : Fifo.held (setGhost (absTB size s) lg ol) = Fifo.held (absTB size s) := rfl
+  rw [hh] at this
+  exact this
+
+/-- **The (rate, bucket) envelope on the kernel** (`C11.tb_envelope`): the kernel run so far is the image of an LTS run whose
+debit log `lg` (one entry per packet whose tokens have been debited: instant and size) satisfies the envelope for all
+`i ≤ j`: `size_i + … + size_j ≤ max(bucket_size, size_i) + rate·(t_j − t_i)/8`. -/
+theorem kernel_tb_envelope (size : Int → Nat) (cfg : TbCfg ℚ) (arrivals : List ℚ) (hg : GapsOK arrivals)
+    (hgood : TokenBucket.Good cfg) (hpk : PeakOK cfg) (fuel : Nat) (s : KState ℚ (TbS ℚ))
+    (hreach : KReach (body size cfg) (fuel + 1) (initState cfg arrivals) s) :
+    ∃ acts lg ol, Fifo.runActs (TokenBucket.dev cfg) (C11.tbStart cfg 0) acts =
+        .ok (setGhost (absTB size s) lg ol, putIds (histOf s.trace), outIds (histOf s.trace)) ∧
+      ∀ (newer mid older : List (ℚ × ℕ)) (ej ei : ℚ × ℕ), lg = newer ++ ej :: (mid ++ ei :: older) →
+        (ej.2 : ℚ) + Envelope.bytes mid + ei.2 ≤ max cfg.bucket ei.2 + cfg.rate * (ej.1 - ei.1) / 8 := by
+  obtain ⟨acts, lg, ol, h⟩ := tb_on_kernel_refines_lts size cfg arrivals hg hgood hpk fuel s hreach
+  refine ⟨acts, lg, ol, h, ?_⟩
+  intro newer mid older ej ei hlog
+  exact C11.tb_envelope cfg hgood 0 (le_refl _) acts _ _ _ h newer mid older ej ei hlog
 
 /-! ### concrete runs of the kernel model, evaluated by the kernel of Lean (exact arithmetic) -/
 
